@@ -810,7 +810,11 @@ fn judge(prop: &str, it: &Item, scen: &Scenario, w: &World, eo: &ExecOut, counts
         if let Some(x) = containment_monitor(w, eo, prop != "C02") { v.push(x); }
         if prop != "C02" { if let Some(x) = outside_effects(w, eo)? { v.push(x); } }
         if prop == "C10" {
-            if o.ok && eo.applied.is_empty() {
+            // an injected ENOENT / EEXIST / ENOTEMPTY is a claim about the state of the directory ("it is already gone / there");
+            // the library is entitled to believe the kernel, so "success for work not done" is only judged for errnos that
+            // say nothing about the state
+            let state_claim = eo.faults.iter().any(|(_, f)| matches!(f.as_str(), "ENOENT" | "EEXIST" | "ENOTEMPTY"));
+            if o.ok && eo.applied.is_empty() && !state_claim {
                 if let Some(why) = postcondition(scen, o) { v.push((format!("false-success:{}", scen.op.name), why)); }
             }
             // EAGAIN semantics: 16 in a row => safety violation, fewer => as if nothing happened
